@@ -41,7 +41,7 @@ def gen_run(rng, execs=("j1", "thread", "process"), maxjobs=6, perturb=True):
 def plan_of(run, extra=None):
     p = {"seed": run.get("seed", 1)}
     for k in ("sched", "pct_depth", "pct_steps", "sel_timeout", "wait_lag", "loadavg", "chunk", "crash_op", "crash_prefix", "crash_sig",
-              "readdir_shuffle", "dt_unknown", "clock", "alloc", "max_steps", "die"):
+              "readdir_shuffle", "dt_unknown", "clock", "clock_step", "alloc", "max_steps", "die"):
         if k in run:
             p[k] = run[k]
     p["trace_sched"] = 1
